@@ -425,10 +425,13 @@ impl FailSafe {
         root_ca: &[u8],
         buf: &mut [u8],
     ) -> Result<(), Error> {
+        // Only one root certificate per fail-safe context, and - as per the Matter Core
+        // spec (`AddTrustedRootCertificate`) - none at all once `AddNOC` or `UpdateNOC`
+        // was executed in it.
         self.check_state(
             session_mode,
             NocFlags::empty(),
-            NocFlags::ADD_ROOT_CERT_RECVD,
+            NocFlags::ADD_ROOT_CERT_RECVD | NocFlags::ADD_NOC_RECVD | NocFlags::UPDATE_NOC_RECVD,
             NocFlags::ADD_ROOT_CERT_RECVD,
         )?;
 
